@@ -146,6 +146,16 @@ prop("C34",
      residual="cycle_endpoint / cycle_token_text / cycle_reference (slice + iterator-adapter string code) are not under contract")
 
 
+prop("C23",
+     units=["errnames"],
+     level="proof",
+     claim="for each of the 12 error kinds the name printed by Display (the English and xlsx form) is parsed back to the same error by "
+           "get_error_by_english_name, names are pairwise distinct, and nothing else is accepted",
+     assumptions=["R6: write!(fmt, LIT) arms of Display::fmt are read as the literal they write (formatter plumbing dropped)",
+                  "vstd's model of str equality and string literals"],
+     residual="localized error names and the 495x5 function-name table are run-time decoded data (language.bin), not a code contract; Functions::lookup/to_localized_name macro tables")
+
+
 def evidence(pid, tier, seed, results, scan_results, kani_results, violations, known_hits, undecided, wall):
     P = PROPS[pid]
     obligations = 0
